@@ -53,12 +53,15 @@ def run(idx, rep, tier):
     # roles by position in init_arnoldi's returned state (slot 0 = basis Q, slot 1 = Hessenberg H), not by local name
     bufs = {}
     irets = [r.value for r in df.returns(init.node) if isinstance(r.value, ast.Tuple) and len(r.value.elts) >= 2]
-    role_of = {e.id: role for r in irets[:1] for role, e in zip(("Q", "H"), r.elts[:2]) if isinstance(e, ast.Name)}
-    for name, vals in df.assignments(init.node).items():
-        for v, p, st in vals:
-            if isinstance(v, ast.Call) and df.is_xnp_call(v) in ("zeros", "empty", "ones", "zeros_like", "empty_like") and name in role_of:
-                shape = next((k.value for k in v.keywords if k.arg == "shape"), v.args[0] if v.args else None)
-                bufs[role_of[name]] = (df.is_xnp_call(v), nospace(shape) if shape is not None else "", v)
+    ALLOC = ("zeros", "empty", "ones", "zeros_like", "empty_like")
+    for r in irets[:1]:
+        for role, e in zip(("Q", "H"), r.elts[:2]):
+            # the allocation bound to the returned name, or written in the returned tuple itself
+            cands = [v for v, p, st in df.assignments(init.node).get(e.id, [])] if isinstance(e, ast.Name) else [e]
+            for v in cands:
+                if isinstance(v, ast.Call) and df.is_xnp_call(v) in ALLOC:
+                    shape = next((k.value for k in v.keywords if k.arg == "shape"), v.args[0] if v.args else None)
+                    bufs[role] = (df.is_xnp_call(v), nospace(shape) if shape is not None else "", v)
     if set(bufs) != {"H", "Q"}:
         rep.undecided("buffers", "init_arnoldi", f"buffers found: {sorted(bufs)}")
     else:
